@@ -312,6 +312,77 @@ theorem C17_schema_all_objects_decided (p : Pass.PSchema) (s0 : Pass.St) (hr : P
   rw [r.2.2.2.2 o.name (hset o ho)]
   exact hset o ho
 
+/-- **The whole file.**  `print_schemas_separate` for a file whose schemas come — in the order in which the dictionary delivers
+    them — after all the schemas they take objects from (`Pass.InDependencyOrder`: well-formed schemas with distinct names, every
+    foreign object a schema mentions is an own object of an earlier one; files without interface clauses are the special case
+    without foreign objects): the sweep loops all finish, every schema is completely processed in the FIRST round, and every
+    `SCHEMAprint` call has suffix 0 — generator-side pass assignment = what the scanner assumes, for every schema of the file.
+    Stated for the loop shape and last case found in the tree.  (Schemas visited BEFORE a supplier get `_1`, `_2`:
+    `C17_unprocessed_supplier_witness`, finding `multipass-suffix`; the model predicts those suffixes too, tied by
+    correspondence only.) -/
+theorem C17_file_in_dependency_order (schemas : List Pass.PSchema) (hord : Pass.InDependencyOrder [] schemas) (fuel : Nat) :
+    (Pass.printFile Generated.CxxPass.sweepLoop Generated.CxxPass.enumLastCase schemas (fuel + 1)).hung = false ∧
+    (∀ x ∈ (Pass.printFile Generated.CxxPass.sweepLoop Generated.CxxPass.enumLastCase schemas (fuel + 1)).printed, x.2 = 0) ∧
+    (∀ q ∈ schemas, (Pass.printFile Generated.CxxPass.sweepLoop Generated.CxxPass.enumLastCase schemas (fuel + 1)).unprocessed q.name = false) := by
+  have hc : Generated.CxxPass.enumLastCase = .inSchemaOrProcessed := by decide
+  have hl : Generated.CxxPass.sweepLoop = .untilSettledOrStalled := by decide
+  rw [hc, hl]
+  have h0 : Pass.Clean [] Pass.fileStart :=
+    ⟨fun k => by simp [Pass.fileStart], rfl, fun _ => rfl, fun q hq => absurd hq List.not_mem_nil,
+     fun q hq => absurd hq List.not_mem_nil, fun x hx => absurd hx List.not_mem_nil⟩
+  have h1 := Pass.round_clean [] schemas Pass.fileStart h0 hord (fun _ _ => rfl)
+  simp only [List.nil_append] at h1
+  -- after the first round nothing is left to do: further rounds return the state unchanged
+  have hstop : ∀ n (fs : Pass.FileSt), (∀ q ∈ schemas, fs.unprocessed q.name = false) →
+      Pass.rounds .untilSettledOrStalled .inSchemaOrProcessed schemas n fs = fs := by
+    intro n fs hfin
+    cases n with
+    | zero => rfl
+    | succ n =>
+      simp only [Pass.rounds]
+      have : schemas.any (fun p => fs.unprocessed p.name) = false := by
+        rw [List.any_eq_false]; intro q hq; rw [hfin q hq]; decide
+      simp [this]
+  have key : Pass.printFile .untilSettledOrStalled .inSchemaOrProcessed schemas (fuel + 1) =
+      (if (schemas.any (fun p => Pass.fileStart.unprocessed p.name) && !Pass.fileStart.hung) = true
+       then schemas.foldl (Pass.visitSchema .untilSettledOrStalled .inSchemaOrProcessed) Pass.fileStart else Pass.fileStart) := by
+    unfold Pass.printFile
+    simp only [Pass.rounds]
+    split
+    · exact hstop fuel _ h1.finished
+    · rfl
+  rw [key]
+  split
+  · exact ⟨h1.nothung, h1.suffix0, h1.finished⟩
+  · rename_i hany
+    have hemp : schemas = [] := by
+      cases schemas with
+      | nil => rfl
+      | cons a r => simp [Pass.fileStart] at hany
+    subst hemp
+    exact ⟨rfl, fun x hx => absurd hx List.not_mem_nil, fun q hq => absurd hq List.not_mem_nil⟩
+
+/-- the hypothesis is satisfiable (a schema with an enumeration and an entity using it; two-schema files in dependency
+    order are exercised by the correspondence, where the predicted suffixes are compared with the real exp2cxx) -/
+example : Pass.InDependencyOrder []
+    [{ name := "a", types := [{ name := "a.ta", isEnum := true }], ents := [{ name := "a.ea", items := ["a.ta"] }] }] := by
+  have nofor : ∀ n, Pass.isForeign ([{ name := "a.ta", isEnum := true }, { name := "a.ea", items := ["a.ta"] }] : List Pass.Obj) n = false := by
+    intro n
+    simp only [Pass.isForeign, Pass.lookup, List.find?]
+    split
+    · rfl
+    · split <;> rfl
+  refine ⟨⟨by decide, fun o _ => nofor o.name, fun o _ => nofor o.name, ?_⟩, ?_, by decide, by decide, trivial⟩
+  · intro i o hl hs
+    have := List.mem_of_find?_eq_some hl
+    simp [Pass.PSchema.os] at this
+    rcases this with rfl | rfl <;> exact absurd hs (by decide)
+  · intro n hn
+    have := nofor n
+    simp only [Pass.PSchema.os, List.append_nil, List.cons_append, List.nil_append] at hn
+    rw [this] at hn
+    exact absurd hn (by decide)
+
 /-- … in particular for a self-contained schema started with everything NOTKNOWN. -/
 theorem C17_self_contained_schema_one_pass_loop (os order : List Pass.Obj) (hnd : (order.map (·.name)).Nodup)
     (hnf : ∀ n, Pass.isForeign os n = false) (k : Nat) :
